@@ -27,6 +27,21 @@ CLAIMS = {
                  'processes is not decided. Seven genuine order dependences are recorded as known findings, three were repaired.',
         'technique': 'ValueSet typing fixpoint + order-taint at API boundary + CFG must/pair rules (ast)',
     },
+    'C05': {
+        'level': 'Rename as a pure function of the reported references: def-use and loop-shape rules on Script.rename and refactoring.rename '
+                 '(every element consumed by one of three branches, token text = own prefix + new name), PAIR on the flow-analysis switch with '
+                 'the whole defining-name closure inside the switched-off window, and key consistency of the late-merge table in '
+                 'find_references. Behaviour preservation and the partition property are not decided.',
+        'technique': 'def-use/shape rules + CFG pair/must rules + table-key agreement (ast)',
+    },
+    'C07': {
+        'level': 'Single source of truth (the only call of the tree refactorer is get_new_code; diff and apply read it), a whole-package '
+                 'inventory of file-system mutators against the triaged apply()/save() sites, the write discipline of ChangedFile.apply '
+                 '(original path, newline=\'\', refusal without path), writes-before-renames order in Refactoring.apply, the exception '
+                 'contract of the refactoring modules (every raise is RefactoringError; asserts triaged) and range validation of the '
+                 'until_line index. Byte-level preservation by parso/difflib is not decided.',
+        'technique': 'who-may-write inventory over resolved call sites + def-use/shape checks + CFG order/gate rules (ast)',
+    },
     'C08': {
         'level': 'Inventory of every process-lifetime mutable store of the package (module/class containers mutated by function code, closures '
                  'of import-time factories, global rebinding, functools caches, cross-module attribute writes, mutated default arguments) '
